@@ -94,8 +94,10 @@ def ob_sched(ni: int, pos0: int, pos1: int, pk: int) -> bool:
     if K < 2:
         H.assume(pos1 == -1)
     else:
-        H.assume(pos1 == -1 or pos0 < pos1)
+        # second pre-emption at every third later switch point; 3 pick patterns
+        H.assume(pos1 == -1 or (pos0 < pos1 and pos1 % 3 == 0))
         H.assume(pos0 != -1 or pos1 == -1)
+        H.assume(pk <= 2)
     p0 = H.select_bisect(pos0, -1, steps)
     p1 = H.select_bisect(pos1, -1, steps) if K >= 2 else -1
     pkv = H.select(pk, 0, 8)
@@ -227,7 +229,7 @@ def validate():
 def obligations(tier, seed):
     obs = []
     K = 1 if tier == "quick" else 2
-    counts = [0, 1, 5] if tier == "quick" else [1, 4, 6]
+    counts = [0, 1, 5] if tier == "quick" else [4, 6]
     blocks = []
     for be in parlib.BACKENDS:
         blocks.append((be, "list", 3, 1))
